@@ -486,11 +486,16 @@ void scan_deps(const std::string& orig_portname, std::string cur_portname,
     };
 
     // this port and all parent ports can be enabled by another port, so check them all
+    bool is_parent = false;
     for(std::string::size_type last_slash;
         cur_portname.size() && (last_slash = cur_portname.find_last_of('/')) != std::string::npos;
-          cur_portname.resize(last_slash))
+          cur_portname.resize(last_slash), is_parent = true)
     {
-        const Port* port = ports.apropos(cur_portname.c_str());
+        // a parent is a subtree port: look it up with its trailing slash, otherwise
+        // apropos() returns the first port that merely starts with the same letters
+        // ("fx_on" for "/fx") or none at all ("/fx/voice1" for "voice#2/")
+        const Port* port = ports.apropos(is_parent ? (cur_portname + "/").c_str()
+                                                   : cur_portname.c_str());
         if(port)
         {
             const char* dep_types[3] = { "enabled by", "depends", "default depends" };
